@@ -107,6 +107,20 @@ func parseFixture(text string) (*fsFixture, error) {
 	return fx, nil
 }
 
+// fsMount: a fixture whose paths start with this element is MOUNTED at the harness's temp
+// directory T (fixture path /MNT/x = real path T/x, /MNT = T itself): the model's "/" is then the
+// real top of the file system, so that `root /` and roots above the fixture can be site roots.
+// Requests, browse scopes and Location headers are translated by the stream (c02.sites).
+const fsMount = "/MNT"
+
+// fsRealPath: where the fixture path p lives on disk.
+func fsRealPath(T, p string) string {
+	if p == fsMount || strings.HasPrefix(p, fsMount+"/") {
+		return filepath.Join(T, filepath.FromSlash(p[len(fsMount):]))
+	}
+	return filepath.Join(T, filepath.FromSlash(p))
+}
+
 func fsToken(ino int) string { return fmt.Sprintf("@@%d@@", ino) }
 
 // fsContent is the content of the regular fixture file with this inode number: its token,
@@ -124,7 +138,7 @@ var fsHTMLNameRe = regexp.MustCompile(`(?s)<span class="name">(.*?)</span>`)
 func (fx *fsFixture) materialise(T, casketfilePath, casketfileText string) error {
 	first := map[int]string{}
 	for _, e := range fx.entries {
-		full := filepath.Join(T, filepath.FromSlash(e.path))
+		full := fsRealPath(T, e.path)
 		if e.isDir {
 			if err := os.MkdirAll(full, 0o755); err != nil {
 				return err
@@ -222,6 +236,9 @@ var stNames = []string{"root-slash", "root-detour", "root-quoted", "root-last", 
 type fsBlockSpec struct {
 	hosts  []string // "x.test" is written http://x.test:0, any other name (localhost, 127.0.0.1) name:0
 	root   string   // fixture path
+	// absRoot, when set, is what the root line names instead of T+root (mounted fixtures: "/" itself,
+	// or the real path of a fixture directory)
+	absRoot string
 	prefix string
 	browse string   // "scope|type,type;scope|…"
 	index  string   // comma separated
@@ -243,8 +260,15 @@ func fsAddrText(host, prefix string, style int) string {
 func fsBlockText(T string, b fsBlockSpec) string {
 	var items []string
 	root := T + b.root
+	if b.absRoot != "" {
+		root = b.absRoot
+	}
 	if b.style&stRootDetour != 0 {
-		root += "/../" + filepath.Base(b.root)
+		if b.absRoot != "" {
+			root += "/../" + filepath.Base(b.absRoot) // "/" + "/../" + "/" for the top of the file system
+		} else {
+			root += "/../" + filepath.Base(b.root)
+		}
 	}
 	if b.style&stRootSlash != 0 {
 		root += "/"
@@ -437,7 +461,7 @@ func fsStartSite(keyFields []string, casketfileText func(T string) (string, erro
 	if err := fx.materialise(T, cf, text); err != nil {
 		return fail(err)
 	}
-	inst, err := casket.Start(casket.CasketfileInput{Filepath: filepath.Join(T, filepath.FromSlash(cf)), Contents: []byte(text), ServerTypeName: "http"})
+	inst, err := casket.Start(casket.CasketfileInput{Filepath: fsRealPath(T, cf), Contents: []byte(text), ServerTypeName: "http"})
 	if err != nil {
 		return fail(fmt.Errorf("casket.Start: %v", err))
 	}
